@@ -33,7 +33,9 @@ def place_markers(r, real, counter, fraction):
             continue
         dups = genlib.duplicate_tags(data.decode("utf-8", "surrogateescape"))
         counter[0] += 1
-        w = genlib.edit_file(r, os.path.join(real, rel), fraction=fraction, marker_prefix="M%d" % counter[0], skip=dups)
+        # only the recorded witness's duplicated tags are left alone: any other duplicated tag gets its markers, and the
+        # regeneration then shows the duplication / loss
+        w = genlib.edit_file(r, os.path.join(real, rel), fraction=fraction, marker_prefix="M%d" % counter[0], skip=set(dups) & findings.UML_DUP_WITNESS_TAGS)
         for name in w:
             placed["M%d:%s" % (counter[0], name)] = (rel, name)
     return placed
@@ -64,7 +66,7 @@ def marker_violation(tree, placed_all):
     return None
 
 
-def multi_machine_case(runner, r, oc, reqs, pend, rounds):
+def multi_machine_case(runner, r, oc, reqs, pend, rounds, uml=False):
     """two machines whose names (hence file names) contain one another, generated into one
     directory, regenerated alternately"""
     backend = r.choice(["cpp", "cs", "py"])
@@ -80,6 +82,17 @@ def multi_machine_case(runner, r, oc, reqs, pend, rounds):
     if r.random() < 0.15:
         models = [dict(kind="uml", backend=r.choice(["uml", "umlcs"]), project=genlib.BLOB, diagram=d, ns_folders=True, dclspc="")
                   for d in ("TestClassDiagram", "ProtocolStack")]
+    if uml or r.random() < 0.1:
+        # one class diagram, mostly synthesised (modelled constructors next to the generated initialising one, operations
+        # taken over from realised interfaces, associations): every block once, under its own tag, after every regeneration
+        models = [genlib.rand_uml_model(r)]
+        if uml and not models[0].get("synth") and r.random() < 0.75:
+            import umlsynth
+            models[0]["synth"] = umlsynth.rand_spec(r)
+            models[0]["diagram"] = models[0]["synth"]["diagram"]
+        if uml and r.random() < 0.5:
+            models[0]["backend"] = "uml"
+        oc.stat("single_uml_model" + ("_synthesised" if models[0].get("synth") else ""))
     with scratch() as base:
         outdir_arg, cwd = genlib.rand_outdir_spelling(r, base)
         real = os.path.join(base, "out")
@@ -91,7 +104,7 @@ def multi_machine_case(runner, r, oc, reqs, pend, rounds):
             for m in models:
                 ret_m = runner.generate(m, outdir_arg)[0] or []
                 owned.append({os.path.normpath(x) for x in ret_m})
-            if owned[0] & owned[1]:
+            if len(owned) > 1 and owned[0] & owned[1]:
                 oc.stat("skipped_same_path_for_both_models")   # both models own one path: not two files
                 return
             for k in range(rounds):
@@ -175,8 +188,8 @@ def search():
     r = rng(PROP, "search")
     runner = genlib.Runner()
     oc = Outcome(PROP)
-    for i in range(100):
-        multi_machine_case(runner, r, oc, [], [], 3)
+    for i in range(160):
+        multi_machine_case(runner, r, oc, [], [], 3, uml=i % 2 == 1)
         if oc.violations:
             return oc.violations[0]
     return None
@@ -201,6 +214,10 @@ def run(tier):
         multi_machine_case(runner, r, oc, reqs, pend, r.choice([2, 3, 5]) if thorough else r.choice([2, 3]))
         if oc.violations:
             break
+    for i in range(120 if thorough else 20):
+        if oc.violations:
+            break
+        multi_machine_case(runner, r, oc, reqs, pend, r.choice([1, 2, 3]), uml=True)
     for i in range(1500 if thorough else 200):
         synthetic_pass_case(r, oc, reqs, pend, i)
     c01.settle(oc, reqs, pend)
